@@ -40,6 +40,7 @@ type frameItem struct {
 	flo, fhi int        // constant leaf range inside otype (fhi == 0: whole object)
 	otid     int        // object-kind id for arrays and maps
 	etype    types.Type // static type of the pointee for `*p` items on non-struct-allocation pointers
+	width    int        // number of leaves of a range item when statically known
 }
 
 type State struct {
@@ -700,14 +701,24 @@ func (vc *VC) havocAll(st *State, why string) {
 		}
 		vc.assume(st, fmt.Sprintf("(forall ((r Int)) (! (=> (= (typ r) %d) (= (select (select %s r) %d) (select (select %s r) %d))) :pattern ((select %s r))))", im.tid, nmem, im.leaf, mem, im.leaf, nmem))
 		// ground instances for the objects already known by reference
-		refs := vc.seenRefs
-		if len(refs) > 80 {
-			refs = refs[len(refs)-80:]
-		}
-		for _, r := range refs {
+		// parameters and call results first (they name the handles contracts talk about), then the most recent loads
+		var refs []string
+		other := 0
+		for k := len(vc.seenRefs) - 1; k >= 0; k-- {
+			r := vc.seenRefs[k]
 			if vc.seenRefTid[r] != im.tid {
 				continue
 			}
+			if strings.HasPrefix(r, "arg_") || strings.HasPrefix(r, "ret_") || strings.HasPrefix(r, "fv_") {
+				if len(refs) < 40 {
+					refs = append(refs, r)
+				}
+			} else if other < 8 {
+				other++
+				refs = append(refs, r)
+			}
+		}
+		for _, r := range refs {
 			vc.assume(st, fmt.Sprintf("(=> (= (typ %s) %d) (= (select (select %s %s) %d) (select (select %s %s) %d)))", r, im.tid, nmem, r, im.leaf, mem, r, im.leaf))
 		}
 	}
@@ -729,6 +740,18 @@ func (vc *VC) havocItems(st *State, items []frameItem, ghosts []string) {
 			st.mi = vc.def("MI", memSort, fmt.Sprintf("(store %s %s %s)", st.mi, it.ref, ri))
 			st.mr = vc.def("MR", memSort, fmt.Sprintf("(store %s %s %s)", st.mr, it.ref, rr))
 		case "range":
+			if it.width > 0 && it.width <= 64 {
+				// a statically known, small run of leaves: fresh values stored one by one (quantifier-free)
+				ri := fmt.Sprintf("(select %s %s)", st.mi, it.ref)
+				rr := fmt.Sprintf("(select %s %s)", st.mr, it.ref)
+				for k := 0; k < it.width; k++ {
+					ri = fmt.Sprintf("(store %s %s %s)", ri, add(it.lo, k), vc.fresh("hv", "Int"))
+					rr = fmt.Sprintf("(store %s %s %s)", rr, add(it.lo, k), vc.fresh("hv", "Int"))
+				}
+				st.mi = vc.def("MI", memSort, fmt.Sprintf("(store %s %s %s)", st.mi, it.ref, ri))
+				st.mr = vc.def("MR", memSort, fmt.Sprintf("(store %s %s %s)", st.mr, it.ref, rr))
+				continue
+			}
 			// finite ranges only: lo/hi constants apart
 			ri := vc.fresh("row", "(Array Int Int)")
 			rr := vc.fresh("row", "(Array Int Int)")
